@@ -171,15 +171,6 @@ func (vs *ValidatorStore) ExecuteAllegationTracker(ctx *ValidatorContext, active
 		if yesP > percentage {
 			decisionMade = true
 			ar.Status = evidence.GUILTY
-			sv, err := ctx.EvidenceStore.CreateSuspiciousValidator(
-				ar.MaliciousAddress, evidence.BYZANTINE_FAULT,
-				vs.lastHeight, vs.lastBlockTime)
-			if err != nil {
-				logger.Errorf("Failed to create suspicious validator: %s\n", err)
-				continue
-			}
-			logger.Detailf("Suspicious validator created: %s\n", sv.Address)
-
 			// taking malicoius validator data
 			addrHuman := ar.MaliciousAddress.Humanize()
 			key := append(vs.prefix, ar.MaliciousAddress...)
@@ -199,6 +190,16 @@ func (vs *ValidatorStore) ExecuteAllegationTracker(ctx *ValidatorContext, active
 				logger.Errorf("Failed to get balance from delegators: %s\n", err)
 				continue
 			}
+
+			// the accused is a validator: only now the verdict is recorded
+			sv, err := ctx.EvidenceStore.CreateSuspiciousValidator(
+				ar.MaliciousAddress, evidence.BYZANTINE_FAULT,
+				vs.lastHeight, vs.lastBlockTime)
+			if err != nil {
+				logger.Errorf("Failed to create suspicious validator: %s\n", err)
+				continue
+			}
+			logger.Detailf("Suspicious validator created: %s\n", sv.Address)
 
 			// calculate evidence percent
 			penalizationAmt := new(big.Float).Mul(
